@@ -419,6 +419,14 @@ def _case(arg) -> Dict[str, Any]:
     if seed % 6 == 4 and not frac:
         per_rank = gen.wide_narrow_set(seed, **kw)  # a 200-name rank next to a small all-duration rank: the small rank's symbols get trace-wide ids beyond 127
         nr = 2
+    if seed % 4 == 1:
+        # two DISTINCT events that agree on name, category, process, thread, start and duration (zero-length view operators in one microsecond): two rows
+        for evs in per_rank.values():
+            host = [e for e in evs if e.get("cat") == "cpu_op" and e.get("dur", 0) >= 5]
+            if host:
+                h = host[len(host) // 2]
+                for _ in range(2):
+                    evs.append({"ph": "X", "cat": "cpu_op", "name": "aten::as_strided", "pid": h["pid"], "tid": h["tid"], "ts": h["ts"] + 1, "dur": 0})
     if seed % 7 == 3:
         # a host-only rank none of whose events carries an `args` object (no launches, no metadata entries): stream / correlation must decode to their defaults
         last = max(per_rank)
